@@ -226,8 +226,34 @@ pub fn run(c: &Value) -> Value {
         ("transitions", "f64") => mk_target_and_run::<f64, B64>(c),
         ("build_tree", "f32") => bt::<f32, B32>(c),
         ("build_tree", "f64") => bt::<f64, B64>(c),
+        ("replay_draws", "f32") => replay_draws::<f32>(c),
+        ("replay_draws", "f64") => replay_draws::<f64>(c),
         ("find_eps", "f32") => fre::<f32, B32>(c),
         ("find_eps", "f64") => fre::<f64, B64>(c),
         (op, f) => panic!("unknown op {op}/{f}"),
     }
+}
+
+/// The values an identically seeded SmallRng yields for a given sequence of draw kinds
+/// (0 = StandardNormal in T, 1 = Exp1 in T, 2 = uniform in T, 3 = uniform f64), rendered as f64 bits.
+fn replay_draws<T>(c: &Value) -> Value
+where
+    T: Tf,
+    rand_distr::StandardNormal: rand::distr::Distribution<T>,
+    rand_distr::StandardUniform: rand_distr::Distribution<T>,
+    rand_distr::Exp1: rand_distr::Distribution<T>,
+{
+    use rand::Rng;
+    let mut r = rand::rngs::SmallRng::seed_from_u64(u64f(c, "seed"));
+    let f = |x: T| num_traits::ToPrimitive::to_f64(&x).unwrap().to_bits();
+    let vals: Vec<u64> = arr(c, "kinds")
+        .iter()
+        .map(|k| match k.as_u64().unwrap() {
+            0 => { let z: T = r.sample(rand_distr::StandardNormal); f(z) }
+            1 => { let e: T = r.sample(rand_distr::Exp1); f(e) }
+            2 => { let u: T = r.random::<T>(); f(u) }
+            _ => r.random::<f64>().to_bits(),
+        })
+        .collect();
+    json!({"values": vals})
 }
